@@ -44,6 +44,8 @@ def cases(tier: str, seed: int) -> List[Dict[str, Any]]:
         out.append({'part': 'D', 'star': i})
     for i in range(len(_DIRECTED_SIB)):
         out.append({'part': 'D', 'sib': i})
+    for i in range(len(_DIRECTED_CHAIN)):
+        out.append({'part': 'D', 'chain': i})
     from vf.gen import corpus
     r = core.rng(seed, 'C06', 'corpus')
     cands = [p for p, nf, size in corpus.roots() if nf >= 3 and size < (300_000 if tier == 'quick' else 1_500_000)]
@@ -120,6 +122,26 @@ def _directed_sibling_sources(init: str, style: str) -> Dict[str, str]:
     return {'pkg/__init__.py': "'Package.'\n" + init, 'pkg/base.py': "class Base:\n    def run(self):\n        'doc of Base.run'\nclass Lost(Exception):\n    pass\nAlias = ConnectionError\n",
             'pkg/config.py': 'DEBUG = False\n', 'pkg/impl.py': user, 'pkg/api.py': 'from pkg.impl import PublicBase, PublicLost\n__all__ = ["PublicBase", "PublicLost"]\n', 'pkg/another.py': user.replace('Impl', 'Impl2').replace('Gone', 'Gone2'),
             'pkg/zlast.py': 'from pkg.impl import Impl\nclass Z(Impl):\n    pass\n'}
+
+
+# fourth family: a long acyclic chain of modules, each star-importing (or re-exporting from) the next: following the imports nests as
+# deep as the chain is long, whatever module the analysis starts with
+_DIRECTED_CHAIN = [(60, 'star'), (75, 'star-all'), (60, 'from')]
+
+
+def _directed_chain_sources(n: int, style: str) -> Dict[str, str]:
+    out = {'pkg/__init__.py': "'Package.'\n"}
+    for i in range(n):
+        if i == n - 1:
+            src = f'class C{i}(Exception):\n    pass\n'
+        elif style == 'from':
+            src = f'from pkg.m{i + 1:03d} import C{i + 1}\nclass C{i}(C{i + 1}):\n    pass\n'
+        else:
+            src = f'from pkg.m{i + 1:03d} import *\nclass C{i}(C{i + 1}):\n    pass\n'
+            if style == 'star-all':
+                src += '__all__ = [' + ', '.join(f'"C{j}"' for j in range(i, n)) + ']\n'
+        out[f'pkg/m{i:03d}.py'] = src
+    return out
 
 
 def worker_init() -> None:
@@ -250,7 +272,7 @@ def diff(a: Dict[str, Any], b: Dict[str, Any]) -> Optional[Tuple[str, str]]:
 
 
 def _run_orders(res: core.Res, roots: List[Any], label: str, max_orders: int, hierarchy_only: bool, witness: Dict[str, Any], r: Any,
-                attribute: bool = True) -> int:
+                attribute: bool = True, spread: bool = False) -> int:
     from vf.mon import sched
     import os
     _BASE[0] = os.path.dirname(str(roots[0])) + os.sep
@@ -264,7 +286,12 @@ def _run_orders(res: core.Res, roots: List[Any], label: str, max_orders: int, hi
     except Exception as e:  # noqa: BLE001
         res.v(f'C06:analysis-raises:{type(e).__name__}', f'{label}: analysis raised {e!r}', traceback=traceback.format_exc()[-1500:], **witness)
         return 0
-    if len(orders) > max_orders:
+    if spread and orders:
+        # far too many orders to enumerate: the first one, its mirror image, and shuffles of it
+        head, rest = orders[0][:1], orders[0][1:]
+        keep = [orders[0], head + rest[::-1]] + [head + r.sample(rest, len(rest)) for _ in range(max(0, max_orders - 2))]
+        exhaustive = False
+    elif len(orders) > max_orders:
         keep = [orders[0]] + r.sample(orders[1:], max_orders - 1)
         exhaustive = False
     else:
@@ -371,6 +398,9 @@ def run_case(case: Dict[str, Any]) -> core.Res:
         elif 'sib' in case:
             params = _DIRECTED_SIB[case['sib']]
             srcs = _directed_sibling_sources(*params)
+        elif 'chain' in case:
+            params = _DIRECTED_CHAIN[case['chain']]
+            srcs = _directed_chain_sources(*params)
         else:
             params = _DIRECTED_PARAMS[case['idx']]
             srcs = _directed_sources(*params)
@@ -381,8 +411,9 @@ def run_case(case: Dict[str, Any]) -> core.Res:
                 pth.parent.mkdir(parents=True, exist_ok=True)
                 pth.write_text(text)
             label = 'directed-cycle:' + '/'.join(str(x) for x in params)
-            n = _run_orders(res, [base / 'pkg'], label, 24, 'sib' not in case, {'project': label, 'sources': srcs}, core.rng('C06', 'D', case.get('idx', case.get('star', case.get('sib')))), attribute=False)
-            res.c('directed_sibling_projects' if 'sib' in case else 'directed_cycle_projects')
+            n = _run_orders(res, [base / 'pkg'], label, 24 if 'chain' not in case else 5, 'sib' not in case and 'chain' not in case, {'project': label, 'sources': srcs if 'chain' not in case else {'chain': list(params)}},
+                            core.rng('C06', 'D', case.get('idx', case.get('star', case.get('sib', case.get('chain'))))), attribute=False, spread='chain' in case)
+            res.c('directed_chain_projects' if 'chain' in case else ('directed_sibling_projects' if 'sib' in case else 'directed_cycle_projects'))
             res.c('evaluations')
         finally:
             shutil.rmtree(base, ignore_errors=True)
